@@ -316,6 +316,27 @@ def all_layouts():
                     yield named, list(attrs), names, verdict
 
 
+def ambiguous_shapes():
+    """'ambiguous selections are compile errors rather than arbitrary choices': every layout of the grammar the documented rules call ambiguous
+    (several explicit #[error(source)] among the non-ignored fields), as a struct and as an enum variant, must not compile - rustc's verdict."""
+    from ..shapes import reject_shape
+    out = []
+    for named, attrs, names, verdict in all_layouts():
+        if verdict == "ok":
+            continue
+        tag = layout_tag(named, attrs, names)
+        sdecl = "#[derive(Debug, derive_more::Error)] pub struct S%s%s" % (fields_decl(named, attrs, names, "crate::support::Er"), "" if named else ";")
+        edecl = "#[derive(Debug, derive_more::Error)] pub enum E { First(crate::support::Er), Target%s }" % variant_fields_decl(named, attrs, names, "crate::support::Er")
+        disp = " impl core::fmt::Display for %s { fn fmt(&self, f: &mut core::fmt::Formatter<'_>) -> core::fmt::Result { f.write_str(\"x\") } }"
+        sh = reject_shape("c09", "ambiguous_struct_" + tag, sdecl + disp % "S", "ambiguous source selection", ["impl/src/error.rs::parse_fields"])
+        sh.quick = True
+        out.append(sh)
+        sh = reject_shape("c09", "ambiguous_variant_" + tag, edecl + disp % "E", "ambiguous source selection", ["impl/src/error.rs::parse_fields"])
+        sh.quick = True
+        out.append(sh)
+    return out
+
+
 def shapes(tier):
     out, excluded = [], []
     k = 0
@@ -330,6 +351,7 @@ def shapes(tier):
         quick = n == 1 or (ign_before and (k % 3 == 0 or n == 2)) or k % 11 == 0
         out.append(layout_shape(named, attrs, names, quick))
     out += special_shapes() + backtrace_shapes()
+    out += ambiguous_shapes()
     shapes.excluded = excluded
     if tier == "quick":
         out = [s for s in out if s.quick]
